@@ -30,15 +30,11 @@ _arrs, _keys = PM._arrs, PM._keys
 P = ["C04", "C09", "C03"]
 
 R.classes["PVW"] = {"tag": INT, "_mav": BOOL, "_only_snvs": BOOL, "samples": LIST(INT), "ploidy": INT, "_phase_tag_found_warned": BOOL}
-R.classes["Record"] = dict(R.classes["Record"], start=INT, ref=INT, alts=MAYBE(LIST(INT)))
+R.classes["Record"] = dict(R.classes["Record"], start=INT, ref=INT, alts=LIST(INT), alts_none=BOOL)
 R.declare_class("Genotype", {"code": INT})
 R.declare_class("GenotypeChange", {"sample": INT, "chromosome": INT, "variant": REF("Variant"), "old_gt": REF("Genotype"), "new_gt": REF("Genotype")})
 R.ctor_fields["GenotypeChange"] = ["sample", "chromosome", "variant", "old_gt", "new_gt"]
-R.declare_class("Variant", {"start": INT, "ref": INT, "alt": INT})
-R.ctor_fields["BiallelicVcfVariant"] = ["start", "ref", "alt"]
-R.classes["BiallelicVcfVariant"] = R.classes["Variant"]
-R.classes["MultiallelicVcfVariant"] = {"start": INT, "ref": INT, "alts": LIST(INT)}
-R.ctor_fields["MultiallelicVcfVariant"] = ["start", "ref", "alts"]
+R.declare_class("Variant", {"start": INT})
 
 STRLEN = z3.Function("STRLEN", z3.IntSort(), z3.IntSort())
 HOM = z3.Function("GENOTYPE_IS_HOMOZYGOUS", z3.IntSort(), z3.BoolSort())
@@ -91,7 +87,9 @@ class RecordModel2:
         if name == "ref":
             return StrId(to_z3(eng.load_field(st, obj, "ref")))
         if name == "alts":
-            return AltsView(eng.load_field(st, obj, "alts"))
+            lst = eng.load_field(st, obj, "alts")
+            lst.none = eng.load_field(st, obj, "alts_none")
+            return AltsView(lst)
         return _BaseRecord.getattr(eng, st, obj, name)
 
 
@@ -132,15 +130,28 @@ def model_tuple(eng, st, node, args, kwargs):
     return args[0]
 
 
-R.external_models.update({"genotype_code": model_genotype_code, "str": model_str})
+def model_variant(eng, st, node, args, kwargs):
+    """BiallelicVcfVariant / MultiallelicVcfVariant(start, ref, alt(s)): a value object that only goes into the genotype-change list"""
+    v = eng.allocate(st, "Variant")
+    eng.store_field(st, v, "start", to_z3(args[0]))
+    return v
 
 
-class RecordsFn(VModel):
+R.external_models.update({"genotype_code": model_genotype_code, "str": model_str, "BiallelicVcfVariant": model_variant, "MultiallelicVcfVariant": model_variant})
+
+
+class WriterModel:
     """self._record_modifier(chromosome): hands out the records of the chromosome one by one = the ghost sequence `records` (each is written by the modifier
     after the loop body has run for it: not part of this unit)"""
 
-    def havoc(self, eng, st, name):
-        return self
+    @staticmethod
+    def method(eng, st, obj, name, args, kwargs):
+        if name == "_record_modifier" and len(args) == 1:
+            return st.env["records"]
+        return NotImplemented
+
+
+R.object_models["PVW"] = WriterModel
 
 
 # ---------------------------------------------------------------------------------------------------------------- specification
@@ -174,10 +185,12 @@ def state_none(eng, st, c, r):
 
 
 @R.spec
-def state_new(eng, st, c, j, pos):
-    """NEW: the call carries exactly the phase this run computed for (sample j, position pos)"""
-    a = _arrs(eng, st)
-    c, j, pos = to_z3(c), to_z3(j), to_z3(pos)
+def state_new(eng, st, c, j, pos, r):
+    """NEW: the call carries exactly the phase this run computed for (sample j, position pos) in the encoding of the run's tag, and nothing of the other
+    encoding: with PS the genotype is the haplotype alleles in order, every allele after the first has the phase bit, PS = component + 1 and an HP key of the
+    record is empty; with HP the HP value is set (its text is _set_HP's, not verified), no allele has a phase bit and a PS key of the record is empty"""
+    a, a0 = _arrs(eng, st), _arrs(eng, st.old)
+    c, j, pos, r = to_z3(c), to_z3(j), to_z3(pos), to_z3(r)
     K = _keys(eng)
     tn, ti = _tag(eng, st, 0)
     comps, phases = st.env["sample_components"], st.env["sample_phases"]
@@ -185,12 +198,17 @@ def state_new(eng, st, c, j, pos):
     ph = from_z3(from_z3(phases.map[j], phases.val).map[pos], phases.val.val)
     i = z3.Int(fresh_name("i"))
     tagv = to_z3(eng.load_field_raw(st, st.env["self"], "tag"))
-    return z3.And(
-        comps.dom[j], phases.dom[j], comp.dom[pos], from_z3(phases.map[j], phases.val).dom[pos],
+    with_ps = z3.And(
         z3.Not(a["none"][c]), a["gtlen"][c] == ph.len,
         forall_pat([i], z3.Implies(z3.And(0 <= i, i < ph.len), a["gt"][c][i] == OPTINT.dt.some(ph.arr[i])), [a["gt"][c][i]]),
         forall_pat([i], z3.Implies(i >= 1, a["ph"][c][i]), [a["ph"][c][i]]),
-        z3.Implies(tagv == K["PS"], z3.And(z3.Not(tn[c][K["PS"]]), ti[c][K["PS"]] == comp.map[pos] + 1)))
+        z3.Not(tn[c][K["PS"]]), ti[c][K["PS"]] == comp.map[pos] + 1,
+        z3.Implies(a0["fmt"][r][K["HP"]], tn[c][K["HP"]]))
+    with_hp = z3.And(
+        z3.Not(tn[c][K["HP"]]),
+        z3.Implies(a0["fmt"][r][K["GT"]], forall_pat([i], z3.Implies(i >= 1, z3.Not(a["ph"][c][i])), [a["ph"][c][i]])),
+        z3.Implies(a0["fmt"][r][K["PS"]], tn[c][K["PS"]]))
+    return z3.And(comps.dom[j], phases.dom[j], comp.dom[pos], from_z3(phases.map[j], phases.val).dom[pos], z3.If(tagv == K["PS"], with_ps, with_hp))
 
 
 @R.spec
@@ -200,7 +218,7 @@ def record_done(eng, st, r):
     j = z3.Int(fresh_name("j"))
     c = a0["calls"][r][j]
     pos = eng.heap_arr(st, "Record.start", z3.IntSort())[r]
-    body = z3.If(is_target(eng, st, j), z3.Or(state_none(eng, st, c, r), state_new(eng, st, c, j, pos)), call_untouched(eng, st, c))
+    body = z3.If(is_target(eng, st, j), z3.Or(state_none(eng, st, c, r), state_new(eng, st, c, j, pos, r)), call_untouched(eng, st, c))
     return z3.ForAll([j], z3.Implies(z3.And(j >= 0, j < a0["ncalls"][r]), body), patterns=[a0["calls"][r][j]])
 
 
@@ -237,6 +255,7 @@ def RECORDS_OK(eng, st):
 
 _DONE_BEFORE = "forall(k, implies(0 <= k and k < %s, record_done(records[k])))"
 _UNTOUCHED_FROM = "forall(k, implies(%s <= k and k < len(records), record_untouched(records[k])))"
+_ALLOC = ["Genotype", "GenotypeChange", "Variant"]
 _MOD = ["Call.gt", "Call.gt_none", "Call.ph", "Call.tag_none", "Call.tag_int", "Call.tag_list", "PVW._phase_tag_found_warned"]
 
 # self._set_phasing_tags: _set_PS's proved postcondition when the tag is PS; for HP the phase bits / genotype part is _set_HP's documented effect (assumed)
@@ -245,13 +264,24 @@ R.contract(
     params={"self": REF("PVW"), "call": REF("Call"), "component": INT, "phase": LIST(INT), "haploid_component": MAYBE(LIST(INT))},
     requires=[("owner", "call.rec is not None and not call.rec.frozen")],
     ensures=[
+        # tag == PS: the postcondition of _set_PS as proved in contracts/vcf_py.py
         ("ps-is-component-plus-one", "implies(self.tag == tag('PS'), tag('PS') in call.tag_int and call.tag_int[tag('PS')] == component + 1 and tag('PS') not in call.tag_none)"),
-        ("gt-is-the-phase-in-order", "len(call.gt) == len(phase) and forall(i, implies(0 <= i and i < len(phase), call.gt[i] == phase[i])) and not call.gt_none"),
-        ("all-alleles-phased", "forall(i, implies(1 <= i, i in call.ph))"),
+        ("ps-gt-is-the-phase-in-order", "implies(self.tag == tag('PS'), len(call.gt) == len(phase) and forall(i, implies(0 <= i and i < len(phase), call.gt[i] == phase[i])) and not call.gt_none)"),
+        ("ps-all-alleles-phased", "implies(self.tag == tag('PS'), forall(i, implies(1 <= i, i in call.ph)))"),
+        ("ps-other-tags-as-before", "implies(self.tag == tag('PS'), forall(t, implies(t != tag('PS') and t != tag('HS'), (t in call.tag_none) == old(t in call.tag_none))))"),
+        # tag == HP: _set_HP writes the HP value (and HS) and leaves the genotype and its phase bits alone (assumed: f-string formatting is outside the subset)
+        ("hp-is-set", "implies(self.tag == tag('HP'), tag('HP') not in call.tag_none)"),
+        ("hp-genotype-untouched", "implies(self.tag == tag('HP'), GT_SAME(call) and forall(t, implies(t != tag('HP') and t != tag('HS'), (t in call.tag_none) == old(t in call.tag_none))))"),
         ("only-this-call", "ONLY_CALL(call)"),
     ],
     modifies=["Call.gt", "Call.gt_none", "Call.ph", "Call.tag_none", "Call.tag_int", "Call.tag_list"],
     extra={"target": None}, props=P)
+
+
+@R.spec
+def GT_SAME(eng, st, call):
+    a, a0 = _arrs(eng, st), _arrs(eng, st.old)
+    return PM._call_untouched(a, a0, to_z3(call))
 
 
 @R.spec
@@ -269,7 +299,7 @@ def ONLY_CALL(eng, st, call):
 
 R.contract(
     "PhasedVcfWriter.write#record-pass",
-    params={"self": REF("PVW"), "chromosome": INT, "records": LIST(REF("Record")), "_record_modifier": RecordsFn(),
+    params={"self": REF("PVW"), "chromosome": INT, "records": LIST(REF("Record")),
             "sample_superreads": DICT(INT, INT), "sample_components": DICT(INT, DICT(INT, INT)),
             "sample_haploid_components": MAYBE(DICT(INT, DICT(INT, LIST(INT)))), "sample_phases": DICT(INT, DICT(INT, LIST(INT))),
             "sample_genotypes": DICT(INT, DICT(INT, REF("Genotype"))), "genotype_changes": LIST(REF("GenotypeChange")), "prev_pos": OPT(INT)},
@@ -279,22 +309,23 @@ R.contract(
         ("samples-are-columns", "forall(k, s, implies(0 <= k and k < len(records) and s in sample_superreads, 0 <= s and s < len(records[k].calls)))"),
         ("per-sample-results", "forall(s, implies(s in sample_superreads, s in sample_components and s in sample_phases and s in sample_genotypes))"),
         ("tag", "self.tag == tag('PS') or self.tag == tag('HP')"),
+        ("haploid-components-per-sample", "implies(sample_haploid_components is not None, forall(s, implies(s in sample_superreads, s in sample_haploid_components)))"),
         ("genotypes-valid", "forall(s, p, implies(s in sample_genotypes and p in sample_genotypes[s], sample_genotypes[s][p] is not None))"),
     ],
     ensures=[("every-record-handed-out-is-left-with-new-phase-or-none-and-other-samples-untouched", _DONE_BEFORE % "len(records)")],
-    modifies=_MOD,
+    modifies=_MOD, mutates=["genotype_changes"],
     locals={"record": REF("Record"), "pos": INT, "is_snv": BOOL, "sample": INT, "call": REF("Call"), "is_het": BOOL, "gt_type": REF("Genotype"),
             "variant": REF("Variant")},
     loops={
-        3: dict(index="ri", modifies=_MOD, inv=[("done", _DONE_BEFORE % "ri"), ("rest-untouched", _UNTOUCHED_FROM % "ri")]),
+        3: dict(index="ri", modifies=_MOD, allocates=_ALLOC, inv=[("done", _DONE_BEFORE % "ri"), ("rest-untouched", _UNTOUCHED_FROM % "ri")]),
         4: dict(index="si", inv=[]),
-        5: dict(index="ti", modifies=_MOD,
+        5: dict(index="ti", modifies=_MOD, allocates=_ALLOC,
                 inv=[("done", _DONE_BEFORE % "ri"), ("rest-untouched", _UNTOUCHED_FROM % "(ri + 1)"), ("not-written", "not record.frozen"),
                      ("this-record", "forall(j, implies(0 <= j and j < len(record.calls), "
-                                     "ite(is_target(j), ite(visited(5, j), state_none(record.calls[j], record) or state_new(record.calls[j], j, pos), "
+                                     "ite(is_target(j), ite(visited(5, j), state_none(record.calls[j], record) or state_new(record.calls[j], j, pos, record), "
                                      "state_none(record.calls[j], record)), call_untouched(record.calls[j]))))")]),
     },
-    extra={"target": "PhasedVcfWriter.write", "loop_slice": 3, "allocates": ["Genotype", "GenotypeChange", "Variant", "MultiallelicVcfVariant"]},
+    extra={"target": "PhasedVcfWriter.write", "loop_slice": 3, "allocates": ["Genotype", "GenotypeChange", "Variant"]},
     props=P)
 
 
